@@ -334,24 +334,26 @@ def cellToObj : Cell → Option Obj
   | .lit l => some (.lit l)
   | _ => none
 
-/-- `updateTimeBoundsForRow` for bound aliases (`"p"@[?lo,?hi]`): `none` = the nil dereference of the
-    Go code when the alias is not in the row (D29). -/
+/-- `updateTimeBoundsForRow` for bound aliases (`"p"@[?lo,?hi]`): one alias. An alias that is not in
+    the row, or whose value is not a time, is an error. -/
+def boundStep (r : Row) (lo : QOpts) (alias : Bytes) (isLower : Bool) : Except QErr QOpts :=
+  if alias = [] then .ok lo else
+  match r.get alias with
+  | none => .error .boundAliasMissing
+  | some (.time t) =>
+    if isLower then
+      .ok { lo with lower := match lo.lower with | none => some t | some g => if timeAfter t g then some t else some g }
+    else
+      .ok { lo with upper := match lo.upper with | none => some t | some g => if timeBefore t g then some t else some g }
+  | some _ => .error .boundAliasNil
+
 def boundsForRow (lo : QOpts) (c : Clause) (r : Row) : Except QErr QOpts :=
-  let lo := updateTimeBounds lo c
-  let step (lo : QOpts) (alias : Bytes) (isLower : Bool) : Except QErr QOpts :=
-    if alias = [] then .ok lo else
-    match r.get alias with
-    | none => .error .boundAliasMissing
-    | some (.time t) =>
-      if isLower then
-        .ok { lo with lower := match lo.lower with | none => some t | some g => if timeAfter t g then some t else some g }
-      else
-        .ok { lo with upper := match lo.upper with | none => some t | some g => if timeBefore t g then some t else some g }
-    | some _ => .error .boundAliasNil
-  do
-    let lo ← step lo c.pLowerAlias true
-    let lo ← step lo c.pUpperAlias false
-    pure (updateTimeBounds lo c)
+  match boundStep r (updateTimeBounds lo c) c.pLowerAlias true with
+  | .error e => .error e
+  | .ok lo1 =>
+    match boundStep r lo1 c.pUpperAlias false with
+    | .error e => .error e
+    | .ok lo2 => .ok (updateTimeBounds lo2 c)
 
 /-- `compatibleRows`. -/
 def compatibleRows (r nr : Row) : Bool := nr.all fun (k, v) => match r.get k with | some ov => sameCell ov v | none => true
